@@ -141,6 +141,13 @@ static void doRun(std::istringstream& is, std::ostream& out) {
 	// optional: the SAME optimizer object first performs a complete earlier run (objective pre_fid, pre_steps steps,
 	// another seed) and is then initialised again; everything printed must equal the run of a fresh object
 	int pre_fid = 0, pre_steps = 0; is >> pre_fid >> pre_steps; if (!is) pre_steps = 0;
+	// optional third field own > 0: the optimizer is constructed with a CALLER-OWNED generator seeded with `seed`, while
+	// random::globalRng is seeded with an unrelated value depending on `own`.  Everything printed must equal the run of a
+	// default-constructed optimizer (global generator seeded with `seed`), and the global generator must be left untouched.
+	int own = 0; if (is) { is >> own; if (!is) own = 0; }
+	random::rng_type ownRng; random::rng_type& orng = own > 0 ? ownRng : random::globalRng;
+	random::rng_type gsnap;
+#define RESEED() do { if (own > 0) { ownRng.seed(seed); random::globalRng.seed(seed + 7907u * unsigned(own)); gsnap = random::globalRng; } else random::globalRng.seed(seed); } while (0)
 	out << "RUN\n";
 	try {
 		Obj f(fid, n, scale);
@@ -151,30 +158,30 @@ static void doRun(std::istringstream& is, std::ostream& out) {
 		random::globalRng.seed(seed + 7919);
 		f.init();
 		RealVector start = f.proposeStartingPoint();
-		random::globalRng.seed(seed);                       // seed AFTER proposeStartingPoint
+		RESEED();                                           // seed AFTER proposeStartingPoint
 		RealMatrix none;
 		if (alg == "CMA") {
-			CMA o; o.recombinationType() = CMA::RecombinationType(recomb < 0 ? 2 : recomb);
+			CMA o(orng); o.recombinationType() = CMA::RecombinationType(recomb < 0 ? 2 : recomb);
 			if (lambda) o.setLambda(lambda); if (mu) o.setMu(mu); if (sigma0 > 0) o.setInitialSigma(sigma0);
-			PRE_RUN(o, o.init(f, start)); random::globalRng.seed(seed);
+			PRE_RUN(o, o.init(f, start)); RESEED();
 			o.init(f, start);
 			for (int t = 0; t < steps; ++t) { o.step(f); stepLine(out, t, f, o, o.mean(), hx(o.sigma()), o.covarianceMatrix(), true); }
 		} else if (alg == "CMSA") {
-			CMSA o; if (lambda) o.setLambda(lambda); if (mu) o.setMu(mu); if (sigma0 > 0) o.setInitialSigma(sigma0);
-			PRE_RUN(o, o.init(f, start)); random::globalRng.seed(seed);
+			CMSA o(orng); if (lambda) o.setLambda(lambda); if (mu) o.setMu(mu); if (sigma0 > 0) o.setInitialSigma(sigma0);
+			PRE_RUN(o, o.init(f, start)); RESEED();
 			o.init(f, start);
 			for (int t = 0; t < steps; ++t) { o.step(f); stepLine(out, t, f, o, o.m_mean, hx(o.sigma()), cholCov(o.m_mutationDistribution.lowerCholeskyFactor()), true); }
 		} else if (alg == "ECMA") {
-			ElitistCMA o; o.activeUpdate() = (recomb != 0);
-			PRE_RUN(o, o.init(f, start)); random::globalRng.seed(seed);
+			ElitistCMA o(orng); o.activeUpdate() = (recomb != 0);
+			PRE_RUN(o, o.init(f, start)); RESEED();
 			o.init(f, start); if (sigma0 > 0) o.sigma() = sigma0;
 			for (int t = 0; t < steps; ++t) {
 				o.step(f);
 				stepLine(out, t, f, o, o.m_individual.searchPoint(), hx(o.sigma()), cholCov(o.m_individual.chromosome().m_mutationDistribution.lowerCholeskyFactor()), true);
 			}
 		} else if (alg == "VDCMA") {
-			VDCMA o; if (sigma0 > 0) o.setInitialSigma(sigma0);
-			PRE_RUN(o, if (lambda && mu) o.init(f, start, lambda, mu, sigma0 > 0 ? sigma0 : 1.0 / std::sqrt(double(n))); else o.init(f, start)); random::globalRng.seed(seed);
+			VDCMA o(orng); if (sigma0 > 0) o.setInitialSigma(sigma0);
+			PRE_RUN(o, if (lambda && mu) o.init(f, start, lambda, mu, sigma0 > 0 ? sigma0 : 1.0 / std::sqrt(double(n))); else o.init(f, start)); RESEED();
 			if (lambda && mu) o.init(f, start, lambda, mu, sigma0 > 0 ? sigma0 : 1.0 / std::sqrt(double(n))); else o.init(f, start);
 			for (int t = 0; t < steps; ++t) {
 				o.step(f);
@@ -188,7 +195,7 @@ static void doRun(std::istringstream& is, std::ostream& out) {
 		} else if (alg == "CEM" || alg == "CEMN") {
 			CrossEntropyMethod o;
 			if (alg == "CEMN") o.setNoiseType(new CrossEntropyMethod::LinearNoise(sigma0, -sigma0 / 50.0));   // documented schedule z_t = max(a + t*b, 0)
-			PRE_RUN(o, if (lambda && mu) o.init(f, start, (unsigned)lambda, (unsigned)mu, RealVector(n, recomb > 0 ? double(recomb) : 100.0)); else o.init(f, start)); random::globalRng.seed(seed);
+			PRE_RUN(o, if (lambda && mu) o.init(f, start, (unsigned)lambda, (unsigned)mu, RealVector(n, recomb > 0 ? double(recomb) : 100.0)); else o.init(f, start)); RESEED();
 			if (lambda && mu) o.init(f, start, (unsigned)lambda, (unsigned)mu, RealVector(n, recomb > 0 ? double(recomb) : 100.0)); else o.init(f, start);
 			for (int t = 0; t < steps; ++t) {
 				o.step(f);
@@ -196,11 +203,13 @@ static void doRun(std::istringstream& is, std::ostream& out) {
 				stepLine(out, t, f, o, o.mean(), hv(o.variance()), C, true);
 			}
 		} else if (alg == "SIMPLEX") {
-			SimplexDownhill o; PRE_RUN(o, o.init(f, start)); random::globalRng.seed(seed); o.init(f, start);
+			SimplexDownhill o; PRE_RUN(o, o.init(f, start)); RESEED(); o.init(f, start);
 			for (int t = 0; t < steps; ++t) { o.step(f); stepLine(out, t, f, o, o.solution().point, "", none, false); }
 		} else out << "ERR unknown alg\n";
+		if (own > 0) out << "GRNG " << (gsnap == random::globalRng ? 1 : 0) << "\n";
 	} catch (std::exception const& e) { out << "EXC " << e.what() << "\n"; }
 	out << "END\n";
+#undef RESEED
 }
 
 static bool sameState(CMA const& a, CMA const& b) {
